@@ -241,7 +241,9 @@ def _base_sequence(inp, qpm):
     b.tempos.add().qpm = qpm
     b.ticks_per_quarter = 220
     p = inp['p']
-    if p['min_pitch'] > 0 or p['max_pitch'] < 127:
+    # (no foreign note for an empty roll: to_sequence asserts that its LAST note ends within total_time, which for a
+    # roll of zero steps would be the base sequence's own note -- a configuration outside C06's statement)
+    if (p['min_pitch'] > 0 or p['max_pitch'] < 127) and inp['events']:
         n = b.notes.add()
         n.pitch = p['min_pitch'] - 1 if p['min_pitch'] > 0 else p['max_pitch'] + 1
         n.velocity, n.start_time, n.end_time = 90, 0.0, 0.5 * _sigma('pianoroll', inp)
